@@ -123,6 +123,10 @@ class Run:
         self.rid = 0
         self.max_open = 0
         self.harness_errors: list[str] = []  # exceptions raised by kit code itself (never swallowed)
+        # cost bound (by count, never by time): recover() calls allowed in this scenario; beyond it every
+        # further recovery is refused by the harness, which makes the workflow fail at once
+        self.recover_cap: int = 1 << 30
+        self.capped = False
         # C19: jobs whose first execution waits until all of them have started, so that their
         # failures are injected in the same loop turn (job durations are arbitrary: feasible schedule)
         self.barrier: set[str] = {p["job"] for p in plan if p.get("barrier")}
@@ -1105,6 +1109,7 @@ async def _scenario(res: Result, shape_desc: dict, plan: list[dict], max_retries
     res.max_retries = max_retries
     chaos = Chaos(schedule or [])
     run = Run(plan, chaos)
+    run.recover_cap = recover_cap(shape, plan)
     res.run = run
     LAST_RUN = run  # debugging aid
     scratch = os.path.realpath(tempfile.mkdtemp(prefix="vf-rec-"))
@@ -1272,6 +1277,15 @@ def _wrap_recover(ctx, run: Run) -> None:
     orig = fm.recover
 
     async def recover(job, step, exception):
+        if run.rid >= run.recover_cap:
+            # runaway recovery (retry storm / unbounded re-submission of an internal error): stop it
+            # here; measured: correct runs of the generated plans need <= 14 recover() calls
+            if not run.capped:
+                run.capped = True
+                run.ev("recover-cap", job.name, exc=type(exception).__name__)
+            from streamflow.core.exception import FailureHandlingException
+
+            raise FailureHandlingException(f"vf: more than {run.recover_cap} recover() calls, refusing further recoveries")
         run.rid += 1
         rid = run.rid
         rec = {"job": job.name, "missing_at_enter": set(run.missing()), "lost_during": set()}
@@ -1364,6 +1378,8 @@ class View:
         )
         if internal:
             return "raised:internal-error:" + "+".join(internal)
+        if self.res.run.capped:
+            return "raised:runaway-recovery"
         if first is not None and first["why"].startswith("FAILED Job") and "Execution aborted" in first["why"]:
             return "raised:retries-exhausted" if exhausted else "raised:refused-below-limit"
         if first is not None and first["outcome"] == "RecursionError":
@@ -1373,6 +1389,20 @@ class View:
         if first is not None:
             return f"raised:{first['outcome']}:{first['why']}"
         return "raised:no-refused-recovery"
+
+    def output_kind(self, got: Any, ref: Any) -> str:
+        """bucket of an output mismatch, by cause where the log shows one"""
+        if self.res.wf is not None:
+            orig = self.res.wf.persistent_id
+            n: dict[str, int] = {}
+            for e in self.res.run.events:
+                if e["ev"] == "start" and e["wf"] == orig:
+                    n[e["job"]] = n.get(e["job"], 0) + 1
+            if any(k > 1 + self.own_exec.get(j, 0) for j, k in n.items()):
+                # a job ran twice in the *original* workflow without failing in between: its job token /
+                # input token arrived twice (duplicate tag propagated from recovery workflows)
+                return "output-differs:duplicated-token"
+        return output_kind(got, ref)
 
     def rerun_without_own_failure(self) -> list[str]:
         return sorted(j for j, n in self.starts.items() if n > 1 + self.own_exec.get(j, 0))
@@ -1406,11 +1436,26 @@ def output_kind(got: Any, ref: Any) -> str:
     """sub-bucket of an output mismatch"""
     if isinstance(ref, list) and isinstance(got, list) and len(got) != len(ref):
         return "output-differs:list-length"
+    if isinstance(ref, list) and isinstance(got, list) and len(got) == len(ref):
+        keys = [json.dumps(x, sort_keys=True) for x in got]
+        refkeys = {json.dumps(x, sort_keys=True) for x in ref}
+        if len(set(keys)) < len(keys) and set(keys) <= refkeys:
+            # a scatter element reached the gather twice (a job executed twice in the original
+            # workflow), the gather fired on the count and another element is missing
+            return "output-differs:duplicated-list-element"
     if isinstance(ref, dict) and isinstance(got, dict) and "file" in ref and "file" in got and ref["file"].endswith("|body"):
         # loop shape: the value of an earlier iteration (fewer applications of the body) is returned
         if ref["file"].startswith(got["file"]) and got["file"] != ref["file"]:
             return "output-differs:loop-returns-earlier-iteration"
     return "output-differs"
+
+
+def recover_cap(shape: Shape, plan: list[dict]) -> int:
+    """recover() calls after which a scenario is cut off: planned failures, plus one collateral failure
+    per job and deletion, doubled, plus slack (1000 sampled correct runs needed at most 14 calls)"""
+    f = sum(p["times"] for p in plan)
+    d = sum(p["times"] for p in plan if p["kind"] == "stop")
+    return 20 + 2 * f + 2 * d * min(len(shape.jobs()), 16)
 
 
 def safe_retries(shape: Shape, plan: list[dict]) -> int:
